@@ -39,7 +39,7 @@ class Node:
 
     @property
     def lineno(self):
-        return getattr(self.ast, 'lineno', None)
+        return getattr(self.ast, '_src_line', getattr(self.ast, 'lineno', None))
 
     def __repr__(self):
         if self.ast is None:
@@ -176,7 +176,7 @@ class CFG:
                 return dangling, i
             if f['type'] == 'finally':
                 # each jump site gets its own copy so paths stay separable
-                copy_reason = '%s@L%s' % (reason, getattr(node.ast, 'lineno', '?'))
+                copy_reason = '%s@L%s' % (reason, getattr(node.ast, '_src_line', getattr(node.ast, 'lineno', '?')))
                 ent, out = self._finally_copy(f, copy_reason, frames[:i])
                 if ent is not None:
                     for (nid, kind) in dangling:
